@@ -1400,11 +1400,12 @@ func ExistExpr(query *Query, current Map, expr *sqlparser.ExistsExpr, opts ...Ex
 		if !ok {
 			return false, INVALID_TYPE.Extend(fmt.Sprintf("failed to build `EXIST` expression. expected an object but found %T", item))
 		}
+		// a column of the nested row hides the outer row's column of the same name
 		merged := make(Map, len(item)+len(scope))
-		for key, value := range item {
+		for key, value := range scope {
 			merged[key] = value
 		}
-		for key, value := range scope {
+		for key, value := range item {
 			merged[key] = value
 		}
 		from[i] = merged
